@@ -272,9 +272,10 @@ def judge(bases):
             if tag == "skip":
                 verdicts[o] += 1
                 continue
-            text = l.split(" | ", 1)[1]
-            sa, sb, _ = text.split(" ; ")
-            distinct_pairs.add((sa, sb))
+            head, text = l.split(" | ", 1)
+            if not head.startswith("numcheck mod "):
+                sa, sb, _ = text.split(" ; ")
+                distinct_pairs.add((sa, sb))
             if tag == "ok":
                 verdicts["ok"] += 1
                 distinct_judged.add(l)
@@ -371,7 +372,8 @@ def check(rep, tier, seed, replay):
         "% m for m = 1..64 plus 10 larger moduli (2^k, 3^k, 10^k, 2*3^k, primes). evaluations = operations executed "
         "(every construction step is itself a case). distinct_nontrivial = distinct (operator, a, b, result) lines where "
         "tm/num.py returned a value and the Lean model evaluated both sides (exceptions and over-size cases excluded). "
-        "programs = distinct operand pairs among them.")
+        "programs = distinct operand pairs (a, b) of the judged non-% operations (a % m cases are counted in "
+        "evaluations, their (a, m) pairs are not counted as programs).")
     rep.cov["judged_results"] = judged
     rep.cov["verdicts"] = dict(j["verdicts"].most_common(12))
     rep.cov["input_distribution"] = {
